@@ -1,0 +1,45 @@
+//go:build verif
+
+// Contracts for package parallel, read by /verif's govc. Comments only; compiled only under tag "verif".
+
+package parallel
+
+// The goroutine body: calls work exactly once, with the captured range, then signals the WaitGroup once.
+//@ func Execute$1
+//@ props C20
+//@ option joins wg
+//@ option private wg _start _end work
+//@ ghost var $dyn_n Int 0
+//@ ghost var $dyn_a0 Int 0
+//@ ghost var $dyn_a1 Int 0
+//@ ensures $dyn_n == 1 && $dyn_a0 == old(*_start) && $dyn_a1 == old(*_end)
+//@ ensures *wg == old(*wg) - 1
+//@ modifies *
+
+// ncalls = number of invocations started; cov = coverage frontier: the invocations started so far were given
+// the contiguous, pairwise disjoint, non-empty ranges [0,c1),[c1,c2),...,[.,cov).
+//@ func Execute
+//@ props C20
+//@ requires nbIterations >= 0
+//@ requires len(maxCpus) == 1 ==> maxCpus[0] >= 1
+//@ ghost var $pending Int 0
+//@ ghost var ncalls Int 0
+//@ ghost var cov Int 0
+//@ at call NumCPU 0: ghost ncpu := nbTasks
+//@ ensures cov == nbIterations
+//@ ensures ncalls <= nbIterations
+//@ ensures len(maxCpus) == 1 ==> ncalls <= maxCpus[0]
+//@ ensures len(maxCpus) != 1 ==> ncalls <= ncpu
+//@ at go 0: assert@dist (i+1)*nbIterationsPerCpus == i*nbIterationsPerCpus + nbIterationsPerCpus using pre0
+//@ at go 0: assert _start == cov && _start < _end && _end <= nbIterations
+//@ at go 0: set cov := _end
+//@ at go 0: set ncalls := ncalls + 1
+//@ loop 0 invariant 0 <= i && i <= nbTasks && nbIterationsPerCpus >= 1 && nbTasks <= nbIterations
+//@ loop 0 invariant len(maxCpus) == 1 ==> nbTasks <= maxCpus[0]
+//@ loop 0 invariant len(maxCpus) != 1 ==> nbTasks <= ncpu
+//@ loop 0 invariant 0 <= extraTasks && 0 <= extraTasksOffset && extraTasks + extraTasksOffset == nbIterations - nbTasks*nbIterationsPerCpus
+//@ loop 0 invariant extraTasksOffset <= i && (extraTasks > 0 ==> extraTasksOffset == i) && nbIterations - nbTasks*nbIterationsPerCpus <= nbTasks
+//@ loop 0 invariant nbIterations - nbTasks*nbIterationsPerCpus < nbTasks || nbTasks == 0
+//@ loop 0 invariant cov == i*nbIterationsPerCpus + extraTasksOffset && ncalls == i && $pending == i && wg == i
+//@ loop 0 decreases nbTasks - i
+//@ modifies *
